@@ -49,6 +49,7 @@ class FrameLedger:
                     "max_frame_size": 16384}
         self.pending_adv = []            # settings sent, not yet ACKed (list of dicts)
         self.adv_mcs = 1                 # client's assumption before the first SETTINGS
+        self.max_iws = 65535
         self.settings_acked = 0
         self.conn_window = 65535         # credit the server has granted for client DATA
         self.stream_credit = {}          # sid -> extra credit via WINDOW_UPDATE
@@ -77,25 +78,39 @@ class FrameLedger:
         return max(vals)
 
     def feed(self, data):
+        """-> list of raw complete units (the preface, then one frame each), so that the
+        h2 server object can be fed frame by frame."""
+        out = []
         self.buf += data
         if not self.preface:
             if len(self.buf) < len(PREFACE):
-                return
+                return out
             if bytes(self.buf[:len(PREFACE)]) != PREFACE:
                 self.problems.append("bad preface")
-                return
+                out.append(bytes(self.buf))
+                self.buf.clear()
+                return out
             del self.buf[:len(PREFACE)]
             self.preface = True
+            out.append(PREFACE)
         while len(self.buf) >= 9:
             ln = int.from_bytes(self.buf[0:3], "big")
+            if ln > 1 << 20:
+                # not a plausible frame: hand everything to h2 and let it object
+                out.append(bytes(self.buf))
+                self.buf.clear()
+                return out
             if len(self.buf) < 9 + ln:
-                return
+                return out
             typ, flags = self.buf[3], self.buf[4]
             sid = int.from_bytes(self.buf[5:9], "big") & 0x7FFFFFFF
-            payload = bytes(self.buf[9:9 + ln])
+            raw = bytes(self.buf[:9 + ln])
+            payload = raw[9:]
             del self.buf[:9 + ln]
             self.frames += 1
             self._frame(typ, flags, sid, payload)
+            out.append(raw)
+        return out
 
     def _frame(self, typ, flags, sid, payload):
         w = self.w
@@ -129,7 +144,11 @@ class FrameLedger:
                 pad = payload[0]
                 body = payload[1:len(payload) - pad]
             used = self.stream_used.get(sid, 0) + n
-            allowed = self._lim("initial_window_size") + self.stream_credit.get(sid, 0)
+            # over-approximation of the client's credit (sound): the largest initial
+            # window ever advertised (bytes sent before a decrease were legal) plus
+            # every WINDOW_UPDATE sent for the stream
+            self.max_iws = max(self.max_iws, self._lim("initial_window_size"))
+            allowed = self.max_iws + self.stream_credit.get(sid, 0)
             if used > allowed:
                 self.problems.append(
                     f"stream {sid} flow control exceeded: {used} > {allowed}")
@@ -244,11 +263,24 @@ class H2Server(TimerMixin, Peer):
         self.refused = set()
         self.close_when_drained = False
 
+    TRACKED = ("max_concurrent_streams", "initial_window_size", "max_frame_size")
+
     def on_open(self, now):
         self.ledger = FrameLedger(self.w, self.wire.id, self.label)
-        named = self.hcfg.get("settings", {})
-        # protocol defaults, MAX_CONCURRENT_STREAMS absent; planned values travel in
-        # the (single) initial SETTINGS frame and take effect on the client's ACK
+        named = dict(self.hcfg.get("settings", {}))
+        later = any(e.get("do") == "settings" for e in self.events)
+        # h2 applies one pending change *per setting* on every ACK, whichever SETTINGS
+        # frame carried it: to keep its server-side enforcement exact every frame
+        # carries the same set of keys.  MAX_CONCURRENT_STREAMS may only stay absent
+        # when no later SETTINGS frame is planned.
+        self.cur_settings = {"initial_window_size": 65535, "max_frame_size": 16384}
+        if later and "max_concurrent_streams" not in named:
+            named["max_concurrent_streams"] = 2 ** 31 - 1
+        if later:
+            full = dict(self.cur_settings)
+            full.update(named)
+            named = full
+        self.cur_settings.update(named)
         self.c.local_settings = h2.settings.Settings(client=False)
         self.c.initiate_connection()
         if named:
@@ -263,9 +295,11 @@ class H2Server(TimerMixin, Peer):
                 self.at(now + wh["t"], lambda t, ev=ev: self._fire(t, ev))
 
     def _send_settings(self, now, named):
-        self.c.update_settings({SETTING_NAMES[k]: v for k, v in named.items()})
-        self.ledger.pending_adv.append(dict(named))
-        self.w.log("h2_srv_settings", self.wire.id, tuple(sorted(named.items())))
+        self.cur_settings.update(named)
+        full = {k: v for k, v in self.cur_settings.items()}
+        self.c.update_settings({SETTING_NAMES[k]: v for k, v in full.items()})
+        self.ledger.pending_adv.append(dict(full))
+        self.w.log("h2_srv_settings", self.wire.id, tuple(sorted(full.items())))
         self._flush(now)
 
     def _flush(self, now):
@@ -393,9 +427,11 @@ class H2Server(TimerMixin, Peer):
         w = self.w
         if self.closed:
             return
-        self.ledger.feed(data)
+        evs = []
         try:
-            evs = self.c.receive_data(data)
+            for raw in self.ledger.feed(data):
+                self._lenient_windows()
+                evs.extend(self.c.receive_data(raw))
         except h2.exceptions.ProtocolError as e:
             w.log("h2_srv_error", self.wire.id, type(e).__name__, str(e)[:120])
             self._flush(now)
@@ -434,6 +470,25 @@ class H2Server(TimerMixin, Peer):
         self._check_counted_events(now)
         self._flush(now)
 
+    def _lenient_windows(self):
+        """RFC 9113 6.9.1 allows an empty DATA frame (END_STREAM) when the window is zero
+        or - after a SETTINGS decrease - negative; h2's inbound WindowManager raises
+        'Flow control window shrunk below 0' for it.  Patch the *server side* stream
+        objects of this connection only (the client under test is untouched)."""
+        for st in self.c.streams.values():
+            wm = getattr(st, "_inbound_window_manager", None)
+            if wm is None or getattr(wm, "_sim_lenient", False):
+                continue
+            orig = wm.window_consumed
+
+            def window_consumed(size, wm=wm, orig=orig):
+                if size == 0 and wm.current_window_size <= 0:
+                    return None
+                return orig(size)
+
+            wm.window_consumed = window_consumed
+            wm._sim_lenient = True
+
     # -- window updates for request bodies ----------------------------------------------
     def _credit(self, now, sid, n):
         pol = self.hcfg.get("wu", "eager")
@@ -445,6 +500,8 @@ class H2Server(TimerMixin, Peer):
         elif pol == "tiny":
             # at most 16 increments per DATA frame keeps large uploads tractable
             step = max(self.hcfg.get("wu_step", 7), (n + 15) // 16)
+            if n <= 256:
+                step = n   # no silly-window decay: small frames are credited at once
             k = 0
             left = n
             while left > 0:
@@ -534,7 +591,7 @@ class H2Server(TimerMixin, Peer):
                 self.ledger.server_ended(sid)
             else:
                 self.pending[sid] = {"body": body_for(tok, n), "pos": 0, "plan": plan,
-                                     "sent_frames": 0}
+                                     "sent_frames": 0, "next_t": 0.0}
                 self._pump(t)
             self._flush(t)
 
@@ -562,7 +619,10 @@ class H2Server(TimerMixin, Peer):
                 plan = p["plan"]
                 body = p["body"]
                 rem = len(body) - p["pos"]
-                burst = 1 if mode in ("random", "rr") else 10 ** 9
+                gap = plan.get("h2_gap", 0.0)
+                if gap and p["next_t"] > now + 1e-12:
+                    continue  # paced stream: its next frame is not due yet
+                burst = 1 if (mode in ("random", "rr") or gap) else 10 ** 9
                 while rem > 0 and burst > 0:
                     try:
                         win = self.c.local_flow_control_window(sid)
@@ -589,6 +649,10 @@ class H2Server(TimerMixin, Peer):
                     rem -= k
                     burst -= 1
                     progress = True
+                    if gap and rem > 0:
+                        p["next_t"] = now + gap
+                        self.at(p["next_t"], self._pump)
+                        progress = False
                     if trunc is not None and p["pos"] >= trunc:
                         self._truncate(now, sid, plan)
                         return
